@@ -36,8 +36,11 @@ NoDupKeys(st) == Cardinality(Keys(st)) = Len(st)
 DomainOK(r, st) ==
     LET tv == VarsOf(UserPoly(r)) IN
     /\ NoDupKeys(st)
-    /\ IF r.matrix /\ r.native THEN Keys(st) = 0..r.maxindex
-       ELSE IF r.matrix THEN Keys(st) = 0..r.maxindex \/ (tv \subseteq Keys(st) /\ Keys(st) \subseteq ToSet(r.reported))
+    \* Matrix input: every index from 0 to max_index; for a stale Matrix (reported variables are upper bounds, C14) any
+    \* max_index between the true and the reported one is accepted
+    /\ IF r.matrix /\ r.native THEN \E m \in (IF tv = {} THEN -1 ELSE Max(tv))..r.maxindex : Keys(st) = 0..m
+       ELSE IF r.matrix THEN (\E m \in (IF tv = {} THEN -1 ELSE Max(tv))..r.maxindex : Keys(st) = 0..m)
+                             \/ (tv \subseteq Keys(st) /\ Keys(st) \subseteq ToSet(r.reported))
        ELSE IF r.kind = "dict" THEN Keys(st) = tv
        ELSE tv \subseteq Keys(st) /\ Keys(st) \subseteq ToSet(r.reported)
 Domain == Clause("Domain", R.raised # "" \/ \A a \in 1..Len(R.api) : DomainOK(R, R.api[a].st))
